@@ -159,10 +159,33 @@ class ExprCanon(ast.NodeTransformer):
             if not g0.ifs and not g0.is_async and isinstance(g0.target, ast.Name) and isinstance(node.args[0].elt, ast.Name) \
                     and node.args[0].elt.id == g0.target.id:
                 node.args = [g0.iter]
+        # all(P for ..) -> not any(not P for ..)
+        if isinstance(f, ast.Name) and f.id == 'all' and len(node.args) == 1 and not node.keywords \
+                and isinstance(node.args[0], (ast.GeneratorExp, ast.ListComp)) and len(node.args[0].generators) == 1:
+            g0 = node.args[0]
+            inner = ast.GeneratorExp(elt=negate(g0.elt), generators=g0.generators)
+            return at(ast.UnaryOp(op=ast.Not(), operand=ast.Call(func=ast.Name(id='any', ctx=ast.Load()), args=[inner], keywords=[])), node)
         # d.get(k, None) -> d.get(k)
         if isinstance(f, ast.Attribute) and f.attr == 'get' and len(node.args) == 2 and not node.keywords \
                 and is_const(node.args[1], None):
             node.args = node.args[:1]
+        return node
+
+    def visit_Compare(self, node):
+        self.generic_visit(node)
+        # next((v for v in it if P), None) is None  ->  not any(P for v in it)      (the elements themselves are never None)
+        if len(node.ops) == 1 and isinstance(node.ops[0], (ast.Is, ast.IsNot)) and is_const(node.comparators[0], None):
+            c = node.left
+            if isinstance(c, ast.Call) and isinstance(c.func, ast.Name) and c.func.id == 'next' and len(c.args) == 2 \
+                    and is_const(c.args[1], None) and isinstance(c.args[0], ast.GeneratorExp) and len(c.args[0].generators) == 1:
+                g = c.args[0].generators[0]
+                if g.ifs and isinstance(g.target, ast.Name) and isinstance(c.args[0].elt, ast.Name) and c.args[0].elt.id == g.target.id:
+                    gen = ast.comprehension(target=g.target, iter=g.iter, ifs=[], is_async=0)
+                    anyc = ast.Call(func=ast.Name(id='any', ctx=ast.Load()),
+                                    args=[ast.GeneratorExp(elt=_and(list(g.ifs), node), generators=[gen])], keywords=[])
+                    if isinstance(node.ops[0], ast.Is):
+                        return at(ast.UnaryOp(op=ast.Not(), operand=anyc), node)
+                    return at(anyc, node)
         return node
 
     def visit_ListComp(self, node):
@@ -1021,7 +1044,12 @@ class Normalizer:
                             counts[t.id] = counts.get(t.id, 0) + 1
                             lambdas[t.id] = n.value if isinstance(n.value, ast.Lambda) else None
             lambdas = {k2: v for k2, v in lambdas.items() if counts.get(k2) == 1 and v is not None}
-            r = self._scopes[k] = {'defs': defs, 'lambdas': lambdas, 'locals': locs | set(fi.all_params) if not isinstance(fi.node, ast.Lambda) else locs}
+            rows = {}
+            for n in walk_local(fi.node):
+                if isinstance(n, ast.Assign) and len(n.targets) == 1 and isinstance(n.targets[0], ast.Name) and counts.get(n.targets[0].id) == 1 \
+                        and isinstance(n.value, (ast.Tuple, ast.List)) and n.value.elts and all(isinstance(e, (ast.Tuple, ast.List)) for e in n.value.elts):
+                    rows[n.targets[0].id] = n.value
+            r = self._scopes[k] = {'defs': defs, 'lambdas': lambdas, 'rows': rows, 'locals': locs | set(fi.all_params) if not isinstance(fi.node, ast.Lambda) else locs}
         return r
 
     def fresh(self, name: str) -> str:
@@ -1162,6 +1190,38 @@ class Normalizer:
             return None
         return clone(body)
 
+    def _share_globals(self, body, target: FuncInfo, fi: FuncInfo) -> bool:
+        """A helper of ANOTHER module is inlined: the module-level names its body uses must mean the same in the caller's module.
+        A name the caller's module does not bind is bound there to the helper module's definition (as an import would);
+        a name both bind differently makes the helper non-inlinable here."""
+        if target.module is fi.module:
+            return True
+        tm, cm = target.module, fi.module
+        local_names = set()
+        for st in body:
+            for n in ast.walk(st):
+                if isinstance(n, ast.Name) and isinstance(n.ctx, (ast.Store, ast.Del)):
+                    local_names.add(n.id)
+                elif isinstance(n, ast.arg):
+                    local_names.add(n.arg)
+        local_names |= set(target.all_params)
+        import builtins
+        todo = {}
+        for st in body:
+            for n in ast.walk(st):
+                if isinstance(n, ast.Name) and isinstance(n.ctx, ast.Load) and n.id not in local_names and not hasattr(builtins, n.id):
+                    bt = self.prog.resolve(tm, n.id)
+                    if bt is None:
+                        continue
+                    bc = self.prog.resolve(cm, n.id)
+                    if bc is None:
+                        todo[n.id] = bt
+                    elif not (bc is bt or (bc.kind == bt.kind and (bc.value is bt.value or bc.value == bt.value))):
+                        return False
+        for name, b in todo.items():
+            cm.scope.setdefault(name, []).append(b)
+        return True
+
     def _avoid_capture(self, body, mapping):
         """Comprehension variables of the helper that also occur in an argument expression get fresh names."""
         used = set()
@@ -1280,6 +1340,8 @@ class Normalizer:
         body = self.callee_body(target)
         if body is None:
             return None
+        if not self._share_globals(body, target, fi):
+            return None
         self._avoid_capture(body, mapping)
         # parameters that the helper re-assigns behave like locals initialised with the argument
         e = self.expr_form(body, dict(mapping))
@@ -1322,6 +1384,49 @@ class Normalizer:
         self.inlined_names.add(target.qualname)
         return at(e, a)
 
+    def unroll_next(self, c: ast.Call, fi: FuncInfo):
+        """next((E for T in ROWS if C), D) over a literal tuple / list of rows (or a constant table that is not an anchor)
+        ->  E1 if C1 else (E2 if C2 else ... D): the first row whose condition holds (rows substituted for T)."""
+        if not (isinstance(c.func, ast.Name) and c.func.id == 'next' and 1 <= len(c.args) <= 2 and not c.keywords
+                and isinstance(c.args[0], ast.GeneratorExp) and len(c.args[0].generators) == 1):
+            return None
+        g = c.args[0].generators[0]
+        if g.is_async or len(c.args) != 2:
+            return None
+        entries = None
+        it = g.iter
+        if isinstance(it, ast.Name) and it.id in self.scope_info(fi).get('rows', {}):
+            it = self.scope_info(fi)['rows'][it.id]         # a local bound once to a literal tuple of rows
+        if isinstance(it, (ast.Tuple, ast.List)) and 0 < len(it.elts) <= 16 and not any(isinstance(e, ast.Starred) for e in it.elts):
+            entries = list(it.elts)
+        else:
+            entries = self._entries(it, fi)
+        if not entries:
+            return None
+        out = c.args[1]
+        for e in reversed(entries):
+            mapping = {}
+            if isinstance(g.target, ast.Name):
+                mapping[g.target.id] = e
+            elif isinstance(g.target, (ast.Tuple, ast.List)) and isinstance(e, (ast.Tuple, ast.List)) and len(e.elts) == len(g.target.elts) \
+                    and all(isinstance(t, ast.Name) for t in g.target.elts):
+                for t, x in zip(g.target.elts, e.elts):
+                    mapping[t.id] = x
+            else:
+                return None
+            elt = Subst(mapping).visit(clone(c.args[0].elt))
+            conds = [Subst(mapping).visit(clone(i)) for i in g.ifs]
+            test = _and(conds, c) if conds else ast.Constant(value=True)
+            tv = _bool_const(test)
+            if tv is True:
+                out = elt
+            elif tv is False:
+                continue
+            else:
+                out = ast.IfExp(test=test, body=elt, orelse=out)
+        self.stats['unrolled'] += 1
+        return at(out, c)
+
     def inline_exprs(self, node, fi: FuncInfo, depth: int):
         """Replace calls of expression helpers anywhere inside an expression."""
         nz = self
@@ -1330,6 +1435,8 @@ class Normalizer:
             def visit_Call(self, c):
                 self.generic_visit(c)
                 e = nz.try_expr_inline(c, fi, depth)
+                if e is None:
+                    e = nz.unroll_next(c, fi)
                 return e if e is not None else c
 
             def visit_Attribute(self, a):
@@ -1349,6 +1456,8 @@ class Normalizer:
             return None
         body = self.callee_body(target)
         if body is None:
+            return None
+        if not self._share_globals(body, target, fi):
             return None
         self._avoid_capture(body, mapping)
         ret = self.fresh('ret')
